@@ -31,6 +31,15 @@ func genC05(t *rapid.T) Scenario {
 		}
 		return sc
 	}
+	if rapid.IntRange(0, 7).Draw(t, "closeThenLoss") == 0 {
+		// a graceful close whose confirm never comes: the link dies within the 500 ms the closing side waits
+		x := rapid.IntRange(0, 1).Draw(t, "cx")
+		sc.Ops = []HubOp{{K: "register", X: 0, Y: 1}, {K: "register", X: 1, Y: 0}, {K: "appear", X: 0, Y: 1}, {K: "appear", X: 1, Y: 0, WaitMs: 1300},
+			{K: "disconnect", X: x, Y: 1 - x, WaitMs: rapid.SampledFrom([]int{0, 20, 150}).Draw(t, "cw")},
+			{K: rapid.SampledFrom([]string{"cut", "freezeOld"}).Draw(t, "closs"), X: rapid.SampledFrom([]int{x, 1 - x}).Draw(t, "cdir"), Y: 0, WaitMs: 1500}}
+		sc.Ops[5].Y = 1 - sc.Ops[5].X
+		return sc
+	}
 	if rapid.IntRange(0, 5).Draw(t, "deniedFirst") == 0 {
 		// x asks first; y has no user interface open and denies at once; while the denied connection
 		// still lingers (about a second) y's user registers x as well
@@ -312,6 +321,13 @@ func genC11Hub(t *rapid.T) Scenario {
 		}
 		sc.Ops = append(sc.Ops, HubOp{K: k, X: x, Y: y, WaitMs: rapid.SampledFrom([]int{0, 0, 30, 250, 700, 1500}).Draw(t, "wait"),
 			Conc: rapid.IntRange(0, 4).Draw(t, "conc") == 0})
+	}
+	if rapid.IntRange(0, 4).Draw(t, "cancelThenLoss") == 0 {
+		// the user cancels the pairing of a completed connection (it stays, the trust goes), then the link fails
+		x := rapid.IntRange(0, 1).Draw(t, "ctx")
+		sc.Ops = append(sc.Ops, HubOp{K: "register", X: x, Y: x + 1}, HubOp{K: "register", X: x + 1, Y: x}, HubOp{K: "appear", X: x, Y: x + 1}, HubOp{K: "appear", X: x + 1, Y: x, WaitMs: 1500},
+			HubOp{K: "cancel", X: x, Y: x + 1, WaitMs: rapid.SampledFrom([]int{100, 800}).Draw(t, "ctw")},
+			HubOp{K: "cut", X: x, Y: x + 1, Conc: true}, HubOp{K: "cut", X: x + 1, Y: x, WaitMs: 1500})
 	}
 	if rapid.IntRange(0, 5).Draw(t, "deadLink") == 0 {
 		// the connection between two hubs has silently died (black hole), one of them is started again
